@@ -14,6 +14,7 @@ end in a lone carriage return (`…_partial`).
 import KlogV.Lemmas.Refine
 import KlogV.Props.C04b
 import KlogV.Spec.Grammar
+import KlogV.Props.Rx.Reconciler
 namespace KlogV.C04
 
 /-- The pause loop: for EVERY sequence of clock readings — including backwards jumps and
